@@ -61,6 +61,24 @@ def panic_free_scanner_bodies(crate):
         if err is None and not sc.stopped_early and not any(o.kind == 'panic' for o in outs):
             out.add(path)
             out.update(sc.inlined)
+    # the lexical helpers, interpreted as consumers (R13.13): same argument
+    bodies = {b.path: b for b in crate.bodies if not b.in_test}
+    import scanner as SC
+    for path, (regex, what) in LEXICAL_RULES.items():
+        body = bodies.get(path)
+        if body is None:
+            continue
+        ck = (id(crate), path)
+        if ck not in _SKIP_CACHE:
+            try:
+                sc, outs = SC.analyse(crate, body, regex, mode='skip')
+                _SKIP_CACHE[ck] = (sc, outs, None)
+            except SC.Unsupported as e:
+                _SKIP_CACHE[ck] = (None, [], str(e))
+        sc, outs, err = _SKIP_CACHE[ck]
+        if err is None and not sc.stopped_early and not any(o.kind == 'panic' for o in outs):
+            out.add(path)
+            out.update(sc.inlined)
     return out
 
 
